@@ -63,6 +63,8 @@ pub struct World {
     pub fired: BTreeMap<String, u64>,
     pub faults_active: i64,
     pub in_quiet: bool,
+    /// node -> applied index of its state machine at its latest restart (C28)
+    pub restart_applied: BTreeMap<u32, u64>,
 }
 pub type WorldRef = Rc<RefCell<World>>;
 
